@@ -32,7 +32,7 @@ CHECKS = [
          technique='SMT (z3 sequence theory) over the byte-string builders taken from the MIR of the media key-derivation code; symbolic execution of sender/receiver dataflow; SMT on the SQL secret lookup',
          text='z3 shows the HKDF context and AEAD associated data built by the real code are injective in (version, file hash, canonical MIME type, file name) given the 0x00 separators and the canonicalisation '
               'the code applies (so two different files/contexts never share a key or AAD by construction), that the sender and receiver derive from the same fields the imeta tag carries, and that the '
-              'exporter-secret lookup is keyed by (group, epoch) exactly.',
+              'exporter-secret lookup is keyed by (group, epoch) exactly; the receiver records the announcing message under the epoch the message was created in (dispatcher and store, O6 + O12).',
          note=MIR_NOTE + ' Not covered: HKDF/ChaCha20-Poly1305 themselves (cryptographic assumptions), MLS exporter separation between epochs (OpenMLS), nonce randomness (OS RNG).'),
     dict(id='C10', engine='sqlsym', design_ref='DESIGN.md section 5, C10',
          technique='SMT equivalence (z3) between SQL extracted from the SQLite backend (ORDER BY, LIMIT/OFFSET parameter casts, WHERE predicates) and the reference model of the storage contract, for all 64-bit values',
